@@ -76,3 +76,27 @@ contract('parso.utils.split_lines', params={'string': 'str', 'keepends': 'bool'}
          fresh_result=True, trusted=True, lists=[],
          note='ASSUMED (used by Leaf.end_pos): the keepends=False branch is re.split(r"\\n|\\r\\n|\\r", s), whose result has '
               'breaks(s)+1 pieces and a last piece of length tail(s); validated by the exhaustive bounded check of C15, not proved')
+
+
+# ----------------------------------------------------------------------------- enumerated dict iteration (loop clause enum=True)
+@specfn('key_at')
+def sp_key_at(eng, st, i):
+    """the key met in iteration i of the enclosing `for k, v in d.items()` loop"""
+    key_at, key_idx, kk = st.env['$enum']
+    from pv.values import VAny
+    t = key_at(i.t)
+    return VStr(t) if kk == 'str' else VAny(t)
+
+
+@specfn('key_idx')
+def sp_key_idx(eng, st, k):
+    """the iteration of the enclosing dict loop that meets key k"""
+    key_at, key_idx, kk = st.env['$enum']
+    return VInt(key_idx(k.t))
+
+
+@specfn('keys_unchanged')
+def sp_keys_unchanged(eng, st):
+    """the dict the enclosing loop runs over has the key set it started with"""
+    mt, kk, row0 = st.env['$enum_row']
+    return VBool(st._marr(mt, 'has', kk)[2] == row0)
